@@ -48,6 +48,10 @@ def gen_spec(rng):
             spec["d"] = 2
         elif r < 0.14 and spec["rank"] == 4:
             spec["transforms"] = "near_identity"
+        elif r < 0.26 and spec["rank"] == 4:
+            spec["transforms"] = _pick(rng, ["in_only", "out_only"])
+        if rng.random() < 0.2:
+            spec["caps"] = "custom"
     else:
         spec = {"kind": "ptt", "coupling": _pick(rng, ["z", "x", "y", "zx"]),
                 "steps": rng.randrange(2, 7), "dkmax": _pick(rng, [None, 2]),
